@@ -21,8 +21,13 @@ pub struct ExStderr(std::io::Stderr);
 pub struct ExStdout(std::io::Stdout);
 pub assume_specification[ std::io::stderr ]() -> (r: std::io::Stderr);
 pub assume_specification[ std::io::stdout ]() -> (r: std::io::Stdout);
-pub assume_specification[ <std::io::Stderr as std::io::Write>::flush ](s: &mut std::io::Stderr) -> (r: std::io::Result<()>);
-pub assume_specification[ <std::io::Stdout as std::io::Write>::flush ](s: &mut std::io::Stdout) -> (r: std::io::Result<()>);
+/// token facts: only flushing stderr / stdout establishes them
+pub uninterp spec fn stderr_flushed() -> bool;
+pub uninterp spec fn stdout_flushed() -> bool;
+pub assume_specification[ <std::io::Stderr as std::io::Write>::flush ](s: &mut std::io::Stderr) -> (r: std::io::Result<()>)
+    ensures stderr_flushed();
+pub assume_specification[ <std::io::Stdout as std::io::Write>::flush ](s: &mut std::io::Stdout) -> (r: std::io::Result<()>)
+    ensures stdout_flushed();
 pub assume_specification[ String::from_utf8_lossy ](v: &[u8]) -> (r: std::borrow::Cow<'_, str>);
 pub broadcast axiom fn ax_fmt_req_all_cow_str<'a>()
     ensures #[trigger] vstd::std_specs::fmt::fmt_req_all::<std::borrow::Cow<'a, str>>();
@@ -80,12 +85,13 @@ pub mod util {
     pub(crate) fn write_buffered<W: VSink>(format_function: VFormatFn, now: &mut DeferredNow, record: &Record, w: &mut W) -> (r: Result<(), std::io::Error>)
         requires
             wb_ok(format_function, record, old(w).sink_id()), //@label write_buffered.perm C13
-        ensures r == wb_result(format_function, record, old(w).sink_id()),
+            super::deferred_now::now_ok(old(now).origin()), //@label write_buffered.same_now C20
+        ensures r == wb_result(format_function, record, old(w).sink_id()), final(now).origin() == old(now).origin(),
     { unimplemented!() }
 }
 pub mod deferred_now {
     use super::*;
-    pub struct DeferredNow { _o: () }
+    //@ include prelude/dnow_shim.rs
 }
 pub mod formats {
     use super::*;
@@ -102,6 +108,8 @@ pub mod formats {
         pub fn call(&self, w: &mut Vec<u8>, now: &mut DeferredNow, record: &Record) -> (r: Result<(), std::io::Error>)
             requires
                 fmt_ok(*self, record), //@label FormatFunction::call.perm C13
+                super::deferred_now::now_ok(old(now).origin()), //@label FormatFunction::call.same_now C20
+            ensures final(now).origin() == old(now).origin(),
         { unimplemented!() }
     }
 }
@@ -133,17 +141,25 @@ pub mod writers {
         pub fn write(&self, now: &mut DeferredNow, record: &Record) -> (r: std::io::Result<()>)
             requires
                 fw_ok(record), //@label FileLogWriter::write.perm C13
-            ensures r == fw_result(record),
+                super::deferred_now::now_ok(old(now).origin()), //@label FileLogWriter::write.same_now C20
+            ensures r == fw_result(record), final(now).origin() == old(now).origin(),
         { unimplemented!() }
         #[verifier::external_body]
-        pub fn flush(&self) -> (r: std::io::Result<()>) { unimplemented!() }
+        pub fn flush(&self) -> (r: std::io::Result<()>) ensures fw_flushed(), r == fw_flush_result() { unimplemented!() }
         #[verifier::external_body]
-        pub fn shutdown(&self) { unimplemented!() }
+        pub fn shutdown(&self) ensures fw_shut() { unimplemented!() }
         #[verifier::external_body]
         pub fn existing_log_files(&self, selector: &LogfileSelector) -> (r: Result<Vec<std::path::PathBuf>, FlexiLoggerError>)
             ensures r == fw_elf_result(selector)
         { unimplemented!() }
     }
+    /// token facts (only the callee's `ensures` establishes them) and result oracles of flush / shutdown (C04)
+    pub uninterp spec fn fw_flushed() -> bool;
+    pub uninterp spec fn fw_flush_result() -> std::io::Result<()>;
+    pub uninterp spec fn fw_shut() -> bool;
+    pub uninterp spec fn ow_flushed(wid: int) -> bool;
+    pub uninterp spec fn ow_flush_result(wid: int) -> std::io::Result<()>;
+    pub uninterp spec fn ow_shut(wid: int) -> bool;
     pub struct LogfileSelector { _o: () }
     pub enum FlexiLoggerError { Poison, Other }
     /// oracle: the file writer's listing for a selector (unit `flw`)
@@ -154,10 +170,13 @@ pub mod writers {
         fn write(&self, now: &mut DeferredNow, record: &Record) -> (r: std::io::Result<()>)
             requires
                 ow_ok(self.wid(), record), //@label LogWriter::write.perm C13
-            ensures r == ow_result(self.wid(), record),
+                super::deferred_now::now_ok(old(now).origin()), //@label LogWriter::write.same_now C20
+            ensures r == ow_result(self.wid(), record), final(now).origin() == old(now).origin(),
         ;
-        fn flush(&self) -> std::io::Result<()>;
-        fn shutdown(&self);
+        fn flush(&self) -> (r: std::io::Result<()>)
+            ensures ow_flushed(self.wid()), r == ow_flush_result(self.wid());
+        fn shutdown(&self)
+            ensures ow_shut(self.wid());
     }
 }
 pub mod multi_writer {
@@ -242,6 +261,10 @@ pub mod multi_writer {
     //@         (s == 2 && f == self.format_for_stderr && dup_allows(self.dup_err_spec(), record_level(record)))
     //@      || (s == 1 && f == self.format_for_stdout && dup_allows(self.dup_out_spec(), record_level(record)))))
     //@   req[MultiWriter::write.pre.fw] forall|x: &Record| #[trigger] fw_ok(x) <==> x == record
+    //@   props C20
+    //@   req[MultiWriter::write.pre.same_now] forall|o: int| #[trigger] super::deferred_now::now_ok(o) <==> o == old(now).origin()
+    //@   ens[MultiWriter::write.post.same_now] final(now).origin() == old(now).origin()
+    //@   props C13
     //@   req[MultiWriter::write.pre.ow] forall|id: int, x: &Record| #[trigger] ow_ok(id, x) <==> (x == record && self.o_other_writer is Some && id == self.other_id())
     //@   ens[MultiWriter::write.post.file] r is Ok && self.o_file_writer is Some ==> fw_result(record) is Ok
     //@   ens[MultiWriter::write.post.other] r is Ok && self.o_other_writer is Some ==> ow_result(self.other_id(), record) is Ok
@@ -251,8 +274,13 @@ pub mod multi_writer {
     //@ fn src/primary_writer/multi_writer.rs impl LogWriter for MultiWriter / fn flush
     //@   ret r
     //@   props C04
+    //@   ens[MultiWriter::flush.post.file] r is Ok && self.o_file_writer is Some ==> fw_flushed() && fw_flush_result() is Ok
+    //@   ens[MultiWriter::flush.post.other] r is Ok && self.o_other_writer is Some ==> ow_flushed(self.other_id()) && ow_flush_result(self.other_id()) is Ok
+    //@   ens[MultiWriter::flush.post.duplicates] r is Ok ==> (!(self.dup_err_spec() is None) ==> super::stderr_flushed()) && (!(self.dup_out_spec() is None) ==> super::stdout_flushed())
     //@ fn src/primary_writer/multi_writer.rs impl LogWriter for MultiWriter / fn shutdown
     //@   props C04
+    //@   ens[MultiWriter::shutdown.post.file] self.o_file_writer is Some ==> fw_shut()
+    //@   ens[MultiWriter::shutdown.post.other] self.o_other_writer is Some ==> ow_shut(self.other_id())
     }
 }
 }
